@@ -14,6 +14,9 @@ CHECKS = {
 CHECKS["C07"] = dict(engine="govm", technique="stateless model checking: every partition of the byte stream (environment choices) x schedules within a deviation bound, on the real receive loops over an in-memory TCP",
              text="The real tcpHandler.recv and connection.recv are run on an in-memory TCP connection; every composition of 1-3 packet streams into chunks, illegal lengths at every position, max-length boundaries, chunk menus around the 4096-byte read buffer, worker pool and a parallel connection; deliveries compared with what was sent, connection state after illegal lengths.",
              note="vnet models TCP as seen through net.Conn (ordered reliable stream, FIN, deadlines); partitions exact because the peer waits for the reader to drain; schedules: default + all with <=1/2 deviations for selected partitions; no fingerprint pruning.", ref="§5 C07")
+CHECKS["C08"] = dict(engine="govm", technique="stateless model checking: deviation-bounded exhaustive schedule exploration (3 default policies) x scripted-peer behaviours of the real client call path over an in-memory network with virtual time",
+             text="2-3 concurrent TarsInvoke callers on one proxy against a scripted server that answers in every order, duplicates replies, injects unknown-id / push / one-way packets and places a reply before/at/after the deadline; all schedules within 1 deviation un-pruned and 2-3 deviations with fingerprint pruning, from three default scheduling policies; plus all interleavings (unbounded) of 2-3 concurrent request-id generators around the wrap-around values.",
+             note="Virtual clock (exact deadlines); scripted server uses an independent mini-codec; pruned runs assume data-race freedom.", ref="§5 C08")
 NOT_YET = {}
 ALL = ["C%02d" % i for i in range(1, 21)]
 
